@@ -2,6 +2,7 @@
 // (module C16PlanesM).  See ops_c16m.h for why these are hand models and how they are tied to the real code.
 #include <math.h>
 #include "sym.h"
+#include "c10frac.h" // FracS: Vec::length at exact fractions so that lean_tv covers the entries calling it
 #include "shapes.h"
 #include "main.h"
 #include <ImathFrustum.h>
